@@ -1295,6 +1295,10 @@ class CallMixin:
             self.kill_refs_through(recv.ref, removed=i0, line=line)
             self.mutate(recv, new, line)
             return SV(valc, el_t, fresh=True)
+        if name == "sort" and recv.term is not None:
+            # in-place sort: the list becomes an (unspecified) permutation of itself - the ORDER is not modelled
+            self.mutate(recv, self.sorted_list(recv, None), line)
+            return SV(None, T.NONE)
         if name == "remove":
             x = args[0]
             idx = self.w.fresh(T.INT, "rmidx")
